@@ -6,7 +6,7 @@ from props import dtfam, c15
 
 ID = 'C16'
 PROPS_MODULE = 'Props.C16'
-THEOREMS = ['C16_dtype_sites', 'C16_dot_any_order_float32', 'C16_stage_bound_partial', 'C16_u32']
+THEOREMS = ['C16_dtype_sites', 'C16_dot_any_order_float32', 'C16_stage_bound_partial', 'C16_u32', 'C16_cascade_bound_float32_partial', 'C16_cascade_nonvacuous']
 VO = ['theories/Props/C16.vo']
 RULE = ('static: every tensor-creation / cast site of the package (regenerated from the source) handles dtype per the rule decided in Coq; dynamic oracle over every public transform '
         '(DWT 1-D/2-D fwd+inv all modes, SWT, DTCWT fwd+inv, both scattering layers): dtype(out) == dtype(in) for float32 and float64 under both process defaults, '
@@ -14,7 +14,7 @@ RULE = ('static: every tensor-creation / cast site of the package (regenerated f
         'with gain the largest absolute row sum of the operator extracted in float64, inputs with large dynamic range. distinct by (transform, config, check).')
 TRUSTED = TRUSTED_COMMON + ['Flocq (FLX format, relative error of rounding to nearest); real-number axioms of the standard library',
                             'torch float32 kernels may use FMA / any summation order: the theorem covers any bracketing of a dot product, per stage']
-ASSUMES = ['PARTIAL: the proved envelope is per linear stage (gamma_depth * gain_stage * max|x|, any evaluation order); the property literal bound 64*eps32*gain(T) for the composite operator is measured by the oracle on every run, not proved',
+ASSUMES = ['PARTIAL: proved are the envelope of one linear stage (gamma_depth * gain_stage * max|x|, any evaluation order) and of a CASCADE of stages fed with computed values (gamma_(sum of depths) * product of stage gains * max|x|); the product of the stage gains stands where the property has the gain of the composite operator (never smaller), the scattering magnitude is not a stage; the property literal bound 64*eps32*gain(T) is measured by the oracle on every run, not proved',
            'under/overflow excluded (FLX)']
 
 
